@@ -1,2 +1,54 @@
-(* placeholder *)
-From LV Require Import Policy.Model.
+(* C09 — non-vacuity: the hypotheses of the theorems (D, forward_clauses,
+   a rejection inside D) are satisfiable by concrete non-trivial inputs. *)
+From Coq Require Import ZArith List Lia.
+From LV Require Import Policy.Model Policy.Proofs Policy.Props.
+Local Open Scope Z_scope.
+
+(* 0.05 BTC forward, 1 sat base + 2500 ppm, inbound discount -500 msat
+   -1000 ppm, mainnet-like height. *)
+Definition x_pol : policy := mkPolicy 1000 4950000000 1000 2500 80.
+Definition x_env : env := mkEnv x_pol 3 2016 4937184000 AuxNone false true.
+(* out fee = 1000 + 5000000*2500/10^6 = 13500; inbound = -500 - 5013 = -5513;
+   total = 7987 *)
+Definition x_htlc (inamt : Z) : htlc := mkHtlc inamt 5000000 800200 800100 (-500) (-1000) 800000.
+
+Example x_total_fee : total_fee_s x_env (x_htlc 0) = 7987.
+Proof. vm_compute. reflexivity. Qed.
+
+Example x_in_D : forall i, 0 <= i < two63 -> D x_env (x_htlc i).
+Proof. intros i Hi. constructor; cbn; unfold two31, two32, two63, max_amt in *; lia. Qed.
+
+(* boundary: exactly the fee is accepted, one msat less is FeeInsufficient *)
+Example x_accept : check_forward_m x_env (x_htlc 5007987) = ok_result.
+Proof. vm_compute. reflexivity. Qed.
+
+Example x_reject : check_forward_m x_env (x_htlc 5007986) = mkRes WFeeInsufficient DNone 5000000.
+Proof. vm_compute. reflexivity. Qed.
+
+Example x_clauses : forward_clauses x_env (x_htlc 5007987).
+Proof.
+  apply C09_sound.
+  - apply x_in_D. unfold two63. lia.
+  - vm_compute. reflexivity.
+Qed.
+
+Example x_names : names_violated_forward x_env (x_htlc 5007986)
+                    (check_forward_m x_env (x_htlc 5007986)).
+Proof.
+  apply C09_failure_names_violated_rule.
+  - apply x_in_D. unfold two63. lia.
+  - vm_compute. discriminate.
+Qed.
+
+(* a discount larger than the fee never lets out exceed in *)
+Definition y_htlc : htlc := mkHtlc 4999999 5000000 800200 800100 (-100000) (-1000) 800000.
+Example y_reject : check_forward_m x_env y_htlc = mkRes WFeeInsufficient DNone 5000000.
+Proof. vm_compute. reflexivity. Qed.
+Example y_total_negative : total_fee_s x_env y_htlc < 0.
+Proof. vm_compute. reflexivity. Qed.
+
+(* link selection: two links, only the second admits *)
+Example sel : choose nat (fun _ => true)
+                (fun l => if Nat.eqb l 1 then ok_result else mkRes WFeeInsufficient DNone 0)
+                (fun _ => O) (cons 0%nat (cons 1%nat nil)) = Some 1%nat.
+Proof. vm_compute. reflexivity. Qed.
